@@ -20,7 +20,8 @@ def gen_c03(rnd, sid):
         if r < 0.55: return ["reg_source", ["src", rnd.randrange(3)]]
         if r < 0.75: return ["new_loop", "U%d" % rnd.randrange(ncls), 0, sid.next()]
         if r < 0.92: return ["close_loop"]
-        return ["proc", None]
+        if r < 0.97: return ["proc", None]
+        return ["proc", "U%d" % rnd.randrange(ncls)]
     handlers = []
     for c in range(ncls):
         for _ in range(rnd.randint(1, 2)):
@@ -54,10 +55,30 @@ def gen_c03_chain(rnd, sid):
                 exc_handler=True, run_empty=True, deliver_at=[])
 
 
+def gen_c03_wait(rnd, sid):
+    """a handler of a nested loop waits for a signal class (process_signals(return_after=X)) while signals of that class are emitted for a source that belongs to an
+    enclosing loop - before the wait, during it (from another handler), and in a later nested loop after a wait that ended because its loop was closed"""
+    hs = []
+    hs.append(dict(cls="U0", hid=0, data=None, scripts=[[["reg_source", ["src", 0]], ["new_loop", "U1", 0, sid.next()]] + ([["new_loop", "U1", 0, sid.next()]] if rnd.random() < 0.5 else [])]))
+    inner = []
+    if rnd.random() < 0.6: inner.append(["enq", "U2", 0, ["src", 0], sid.next()])                 # held for level 0
+    inner.append(["enq", "U3", 0, None, sid.next()])                                              # its handler emits an outer-owned U2 during the wait
+    inner.append(["enq", "U2", rnd.choice([0, 1]), None, sid.next()])                             # the one the wait is released by
+    inner.append(["proc", "U2"])
+    if rnd.random() < 0.5: inner.append(["enq", "U2", 0, ["src", 0], sid.next()])
+    inner.append(["close_loop"])
+    second = [["enq", "U2", 0, ["src", 0], sid.next()], ["enq", "U2", 0, None, sid.next()], ["close_loop"]]
+    hs.append(dict(cls="U1", hid=1, data=None, scripts=[inner, second]))
+    hs.append(dict(cls="U2", hid=2, data=None, scripts=[[]] * 12))
+    hs.append(dict(cls="U3", hid=3, data=None, scripts=[[["enq", "U2", 0, ["src", 0], sid.next()]], []]))
+    return dict(op="machine", mode="c03", width=80, screens=[], handlers=hs, init=[["enq", "U0", 0, None, sid.next()]], stdin=[], quit_cb=None, quit_screen=None,
+                exc_handler=True, run_empty=True, deliver_at=[])
+
+
 def generate(rnd, tier):
     n = 500 if tier == "quick" else 6000
     sid = SidCounter()
-    cases = [gen_c03(rnd, sid) for _ in range(n)] + [gen_c03_chain(rnd, sid) for _ in range(n)] + [gen_case(rnd, "loop", sid) for _ in range(n // 2)] + [gen_case(rnd, "app", sid) for _ in range(n // 4)]
+    cases = [gen_c03_wait(rnd, sid) for _ in range(n // 10)] + [gen_c03(rnd, sid) for _ in range(n)] + [gen_c03_chain(rnd, sid) for _ in range(n)] + [gen_case(rnd, "loop", sid) for _ in range(n // 2)] + [gen_case(rnd, "app", sid) for _ in range(n // 4)]
     if tier == "thorough":
         from harness.gen.exhaustive import loop_programs
         cases += list(loop_programs(sid))          # small-scope exhaustive: 3 663 programs
